@@ -2,6 +2,7 @@
      case <new|old> <addrs> <slots> <classes> | <op>;<op>;...
         op = R  |  S <deploy a:c,..> <replace a:c,..> <nonce a:v,..> <store a:k:v,..> <decl h,..>
      replies   ops <bit per op: store valid / revert succeeded>
+               sysg <bit per op: sys_guarded of the sequence up to and including the op>
                height <number of blocks of the resulting chain>
                t <n> <answers>     truth after block n          (for every n < height)
                m <n> <answers>     model read at block n on the final model state
@@ -10,11 +11,22 @@
      chk <n> <answers>   evaluates the property predicate c03_ok of the last case on observed answers:
                replies  ok | bad <index of the first wrong answer>
    Answers are listed in universe order: class(a) for all a, nonce(a) for all a, slot(a,k) for all a,k,
-   declared(h) for all h. *)
+   declared(h) for all h.
+     ccase <classes h,..> | <cop>;<cop>;...      the CASM-metadata machine (crun)
+        cop = R  |  S <v2 0|1> <declared h:c:v2hash,..> <migrated h:c,..>
+     replies   ops / height / t <n> / m <n> / h as above, answers = compiled class hash of every listed class
+     cchk <n> <answers>   evaluates casm_ok of the last ccase: ok | bad <index> *)
 let hx s = n_of_hex s
 let list_of s = if s = "-" then [] else String.split_on_char ',' s
 let pair s = match String.split_on_char ':' s with [a; b] -> (hx a, hx b) | _ -> failwith ("pair " ^ s)
 let triple s = match String.split_on_char ':' s with [a; b; c] -> ((hx a, hx b), hx c) | _ -> failwith ("triple " ^ s)
+
+let triple3 s = match String.split_on_char ':' s with [a; b; c] -> (hx a, (hx b, hx c)) | _ -> failwith ("triple3 " ^ s)
+let parse_cop (s : string) : cop = match words s with
+  | ["R"] -> CRevert
+  | ["S"; v2; decl; migr] ->
+      CStore { c_v2 = (v2 = "1"); c_decl = List.map triple3 (list_of decl); c_migr = List.map pair (list_of migr) }
+  | _ -> failwith ("cop: " ^ s)
 
 let parse_op (s : string) : op = match words s with
   | ["R"] -> Revert
@@ -35,6 +47,8 @@ let queries addrs slots classes : query list =
 (* per-op outcome, recomputed by stepping (the extracted run only returns the final state) *)
 let last_rc : diff list ref = ref []
 let last_qs : query list ref = ref []
+let last_crc : cblk list ref = ref []
+let last_chs : n list ref = ref []
 
 let () =
   read_lines (fun line ->
@@ -45,11 +59,13 @@ let () =
         let ops = List.map parse_op (split_on ';' body) in
         let run = if backend = "new" then run_new else run_old in
         (* outcome bits: run every prefix and compare chain lengths / states *)
-        let bits = Buffer.create 16 in
+        let guarded = if backend = "new" then sys_guarded_new else sys_guarded_old in
+        let bits = Buffer.create 16 and sysg = Buffer.create 16 in
         let prev = ref (run []) in
         let acc = ref [] in
         List.iter (fun o ->
           acc := !acc @ [o];
+          Buffer.add_char sysg (if guarded !acc then '1' else '0');
           let cur = run !acc in
           let changed = (match o with
             | Store _ -> List.length (snd cur) = List.length (snd !prev) + 1
@@ -60,6 +76,7 @@ let () =
         let qs = queries (List.map hx (list_of addrs)) (List.map hx (list_of slots)) (List.map hx (list_of classes)) in
         last_rc := rc; last_qs := qs;
         print_endline ("ops " ^ (if Buffer.length bits = 0 then "-" else Buffer.contents bits));
+        print_endline ("sysg " ^ (if Buffer.length sysg = 0 then "-" else Buffer.contents sysg));
         let h = List.length rc in
         print_endline ("height " ^ string_of_int h);
         let rd = if backend = "new" then read_new else read_old in
@@ -71,6 +88,43 @@ let () =
         done;
         print_endline ("h " ^ String.concat " " (List.map (fun q -> show_ans (read_head s q)) qs));
         print_endline "end";
+        flush stdout
+    | "ccase" :: classes :: "|" :: _ ->
+        let i = String.index line '|' in
+        let body = String.sub line (i + 1) (String.length line - i - 1) in
+        let ops = List.map parse_cop (split_on ';' body) in
+        let bits = Buffer.create 16 in
+        let prev = ref (crun []) in
+        let acc = ref [] in
+        List.iter (fun o ->
+          acc := !acc @ [o];
+          let cur = crun !acc in
+          let changed = (match o with
+            | CStore _ -> List.length (snd cur) = List.length (snd !prev) + 1
+            | CRevert -> List.length (snd cur) + 1 = List.length (snd !prev)) in
+          Buffer.add_char bits (if changed then '1' else '0');
+          prev := cur) ops;
+        let (m, rc) = !prev in
+        let hs = List.map hx (list_of classes) in
+        last_crc := rc; last_chs := hs;
+        print_endline ("ops " ^ (if Buffer.length bits = 0 then "-" else Buffer.contents bits));
+        let h = List.length rc in
+        print_endline ("height " ^ string_of_int h);
+        for n = 0 to h - 1 do
+          let nn = n_of_int n in
+          print_endline ("t " ^ string_of_int n ^ " " ^ String.concat " " (List.map (fun c -> show_ans (ans_of (ctruth_at rc nn c))) hs));
+          print_endline ("m " ^ string_of_int n ^ " " ^ String.concat " " (List.map (fun c -> show_ans (casm_read m c nn)) hs))
+        done;
+        print_endline ("h " ^ String.concat " " (List.map (fun c -> show_ans (casm_head m c)) hs));
+        print_endline "end";
+        flush stdout
+    | "cchk" :: n :: answers ->
+        let nn = n_of_int (int_of_string n) in
+        let rec go i hs ans = match hs, ans with
+          | [], [] -> print_endline "ok"
+          | c :: hr, a :: ar -> if casm_ok !last_crc c nn (parse_ans a) then go (i + 1) hr ar else print_endline ("bad " ^ string_of_int i)
+          | _, _ -> print_endline "bad -1" in
+        go 0 !last_chs answers;
         flush stdout
     | "chk" :: n :: answers ->
         let nn = n_of_int (int_of_string n) in
